@@ -12,8 +12,8 @@ RULE = ("one `cmp <ver> <endianness> <type> <value> <hex1> <hex2>` line per case
         "implementation serializes the value and decodes hex1 and hex2; non-trivial when the value contains a collection, "
         "string or nested structure; distinct by canonical op line. "
         "FOLLOW-UP 2: one case in eight draws wide strings and enumerations declared appendable / mutable (inside the model "
-        "and the specification); one case in eight draws UNIONS: FINAL unions are inside the Lean model and the Lean "
-        "specification; APPENDABLE and MUTABLE unions are the ORACLE-ONLY PART: they are in neither the Lean model "
+        "and the specification); one case in eight draws UNIONS: FINAL and (follow-up 4) APPENDABLE unions are inside the Lean model and the Lean "
+        "specification; MUTABLE unions are the ORACLE-ONLY PART: they are in neither the Lean model "
         "nor the Lean specification, the model answers `unmodelled`; the specification bytes of such a case are those of the "
         "structure the standard reduces a union value to (rules (26)-(28): discriminator as must-understand member 0, "
         "selected branch as member <branch id>, same extensibility), computed by the Lean specification on the reduced type; "
@@ -170,8 +170,8 @@ def run(ctx):
         protos.append((ver, r.choice(["le", "be"]), X.ty_text(t), X.val_text(v)))
     eng = X.model_engine()
     # the oracle-only part: specification bytes of the structure a union value reduces to
-    uprotos = [p for p in protos if "UA" in p[2] or "UM" in p[2]]
-    protos = [p for p in protos if not ("UA" in p[2] or "UM" in p[2])]
+    uprotos = [p for p in protos if "UM" in p[2]]
+    protos = [p for p in protos if "UM" not in p[2]]
     ucases = []
     reduced = []
     for (a, b, c, d) in uprotos:
@@ -185,7 +185,7 @@ def run(ctx):
             ctx.count("oracle-only: skipped (specification refused the reduced value)")
             continue
         ucases.append(Case([f"cmp {a} {b} {c} {d} {s1[3:]} {s1[3:]}"]))
-        ctx.count("oracle-only part (type has an appendable / mutable union)")
+        ctx.count("oracle-only part (type has a mutable union)")
         if re.search(r"SM\{[^{}]*E(i8|i16|i32)[am]\[", c) or re.search(r"UM[a-z0-9]+\{[^{}]*E(i8|i16|i32)[am]\[", c):
             ctx.count("oracle-only: appendable / mutable enum member of a mutable structure / union")
     for i in range(0, len(ucases), 5000):
@@ -207,6 +207,8 @@ def run(ctx):
             ctx.count("type has wide string")
         if "UF" in c:
             ctx.count("type has a final union (inside model and specification)")
+        if "UA" in c:
+            ctx.count("type has an appendable union (inside model and specification)")
         if s1 != s2:
             ctx.count("dialects differ")
     ctx.count("model-engine " + eng)
@@ -228,8 +230,9 @@ LEVEL_TEXT = ("Kernel-checked Lean theorems: C10_model_eq_spec / C10_model_eq_sp
               "differential run compares the real bytes with the specification's (dust-dds dialect) and feeds specification bytes "
               "of both dialects to the real decoder. FOLLOW-UP 2: the model, the specification and C10_model_eq_spec now also "
               "cover wide strings, enumerations with a declared extensibility (C10_enum_length_code: an enum member never gets "
-              "LC = 5, whatever its extensibility; C10_appendable_enum_member_bytes) and FINAL unions. ORACLE-ONLY PART: "
-              "appendable and mutable unions are in neither the model nor the specification; their bytes are compared with the "
+              "LC = 5, whatever its extensibility; C10_appendable_enum_member_bytes), final and (follow-up 4) appendable unions; CHAR8 "
+              "0..255 is one byte in model and specification (D63 repaired). ORACLE-ONLY PART: "
+              "mutable unions are in neither the model nor the specification; their bytes are compared with the "
               "specification bytes of the structure the standard reduces a union value to, on the implementation only; nothing "
               "is proved about them.")
 LEVEL_NOTE = ("Trusted: Lean kernel; the specification Spec/Xcdr.lean as a faithful reading of XTypes 1.3 clause 7.4.3.5 (each "
